@@ -100,9 +100,33 @@ def check(facts, rep, tier, cfg):
             rep.ok("C11.R2", "reaction-fields", where, "delivered Datagram fields <- same-role payload fields")
         else:
             rep.bad("C11.R2", "reaction-fields", where, "delivered datagram is built from %s" % got)
+        # any flow id: no test of the frame's id can bypass the opcode dispatch (a datagram's flow id is opaque to the multiplexor)
+        tr0 = it.tracer(b)
+        disp = [bb for bb, v in edge_literals_dominating(facts, b, tr0, bi, lambda g: {"Datagram"} if g.kind == "discr" else None)]
+        rets = set(x for x in range(len(b.blocks)) if b.term(x)["k"] == "Return")
+        idg = []
+        for D in disp[:1]:
+            for bb in range(len(b.blocks)):
+                if b.term(bb)["k"] != "SwitchInt" or not b.dominates(bb, D) or bb == D:
+                    continue
+                g = guard_at(facts, b, tr0, bb)
+                if g is None or g.kind == "discr":
+                    continue
+                roles = set(r for x in walk(g.pred) if x.kind == "bin" for a in (x[2], x[3]) for r in rules_c03.top_roles(it.expand(b, a)))
+                roles |= rules_c03.top_roles(it.expand(b, g.pred))
+                if "Frame.id" in roles and any(rets & b.reachable_from(t, cut={D}) for t, _ in g.edges):
+                    idg.append(bb)
+        if not disp:
+            rep.bad("C11.R2", "any-flow-id", where, "the Datagram delivery is not dominated by the opcode dispatch (anchor not recognised)")
+        elif idg:
+            rep.bad("C11.R2", "any-flow-id", "%s (%s)" % (loc_str(b.term(idg[0])["loc"]), b.path),
+                    "the delivery of a datagram to the application is conditioned on the frame's flow id (guard at %s): datagrams with "
+                    "some flow ids (e.g. 0, which the client uses for stdio UDP) are dropped although the buffer has room" % loc_str(b.term(idg[0])["loc"]))
+        else:
+            rep.ok("C11.R2", "any-flow-id", where, "no guard on the frame id dominates the delivery")
     rep.rule("C11.R3", "never blocking, never fatal: try_send only; table row Datagram; every valid Datagram decodes")
     for mod, rule_sel, pref in ((rules_c04, lambda r, k: r == "C04.R3", "no-block/"),
-                                (rules_c10, lambda r, k: "Datagram" in k, "table/"),
+                                (rules_c10, lambda r, k: "Datagram" in k or (r == "C10.R1" and "unmatched/" in k and "op:" not in k), "table/"),
                                 (rules_c09, lambda r, k: "Datagram" in k and r in ("C09.R1", "C09.R2", "C09.R3", "C09.R4"), "codec/")):
         sub = type(rep)(rep.prop, rep.tier, rep.config)
         mod.check(facts, sub, tier, cfg)
